@@ -93,7 +93,7 @@ impl<'a> AncillaryIter<'a> {
     /// The buffer should contain valid control messages.
     pub unsafe fn new(buffer: &'a [u8]) -> Self {
         Self {
-            inner: sys::CMsgIter::new(buffer.as_ptr(), buffer.len()),
+            inner: sys::CMsgIter::new_iter(buffer.as_ptr(), buffer.len()),
             buffer,
         }
     }
